@@ -1451,6 +1451,15 @@ impl World for WorldRef {
             SimWorld::probe(&mut g, tag);
             drop(g);
         }
+        if tag == "atomic_access" || tag.ends_with("_wait") || tag == "mutex_lock" {
+            // synchronisation points are few in a correct run; counting them lets a spin loop
+            // run into the step budget (bounded liveness) instead of the wall-clock watchdog
+            let mut g = w.lock();
+            g.steps += 1;
+            if g.sc.step_budget > 0 && g.steps > g.sc.step_budget {
+                w.finish_locked(&mut g, Exit::Budget);
+            }
+        }
         w.sched_yield(OpKind::Yield, tag);
     }
 }
